@@ -95,6 +95,9 @@ static void *procfunc(struct cmb_process *self, void *vctx)
         else if (!strcmp(o, "tset")) { VAR(a1) = cmb_process_timer_set(self, (double)a2, a3); RETX(0, "h=%" PRIu64, VAR(a1)); }
         else if (!strcmp(o, "tcancel")) { if (VAR(a1) == 0u) SKIP(); else RET(cmb_process_timer_cancel(self, VAR(a1)) ? 1 : 0); }
         else if (!strcmp(o, "tclear")) { cmb_process_timers_clear(self); RET(0); }
+        /* the timer API applied to ANOTHER process (typically suspended in a wait, its awaits list holding non-timer entries too) */
+        else if (!strcmp(o, "tclearo")) { if (!running((int)a1)) SKIP(); else { cmb_process_timers_clear(&procs[a1]); RET(0); } }
+        else if (!strcmp(o, "taddo")) { if (!running((int)a1)) SKIP(); else { const uint64_t h = cmb_process_timer_add(&procs[a1], (double)a2, a3); RETX(0, "h=%" PRIu64, h); } }
         else if (!strcmp(o, "resume")) { if (!running((int)a1) || a2 == 0) SKIP(); else { cmb_process_resume(&procs[a1], a2); RET(0); } }
         else if (!strcmp(o, "intr")) { if (!running((int)a1) || a2 == 0) SKIP(); else { cmb_process_interrupt(&procs[a1], a2, a3); RET(0); } }
         else if (!strcmp(o, "stop")) {
